@@ -1,117 +1,385 @@
 (* C20: the generic checker (Proofs/C20.v) evaluated on the pipelines GENERATED from the source.
-   A changed order of side effects or a changed except clause in /repo changes Gen/GenStatus.v and
-   these vm_compute obligations are re-decided about what the source says now. *)
+   A changed order of side effects, a changed except clause, a changed test on the molecule count or
+   a changed return in /repo changes Gen/GenStatus.v and these vm_compute obligations are re-decided
+   about what the source says now. *)
 From Coq Require Import List Bool Arith.
 Import ListNotations.
 From SCMO Require Import Lib.StatusLang Gen.GenStatus Model.C20 Proofs.C20.
 
-Lemma no_chk_ok (ch : nat -> bool) : forall id b, no_chk id = Some b -> ch id = b.
-Proof. intros id b H. discriminate H. Qed.
+Definition P_inv (r : res) (w : world) : bool := invb w.
+Definition P_inv_rep (r : res) (w : world) : bool := invb_rep w.
+Definition P_end (r : res) (w : world) : bool := match r with RNormal => ok_and_four w | _ => true end.
+Definition P_end_rep (r : res) (w : world) : bool := match r with RNormal => ok_and_good w | _ => true end.
+Definition P_fail (r : res) (w : world) : bool := match r with RNormal => true | _ => not_ok w end.
 
 (* 1. invariant: status Ok -> exists, complete, sorted, indexed; whatever fails, wherever, with
-      whatever exception class *)
-Lemma chk_inv_pipeline : check all_kinds no_chk pipeline inv_init P_inv = true.
+      whatever exception class other than TimeoutError *)
+Lemma chk_inv_pipeline : check worker_kinds no_chk pipeline invb P_inv = true.
 Proof. vm_cast_no_check (eq_refl true). Qed.
 
 Lemma never_ok_early : forall cnt ch f w0 r s,
-  invb w0 = true -> lost w0 = false ->
+  no_timeout f ->
+  aux_clear w0 = true -> invb w0 = true ->
   run_prog pipeline cnt ch f w0 = (r, s) ->
   st (wd s) = SOk -> ex (wd s) = true /\ co (wd s) = true /\ so (wd s) = true /\ ix (wd s) = true.
 Proof.
-  intros cnt ch f w0 r s Hinv Hl Hrun Hst.
-  assert (Hi : inv_init w0 = true) by (unfold inv_init; rewrite Hinv, Hl; reflexivity).
-  pose proof (check_sound _ _ _ _ _ chk_inv_pipeline cnt ch f w0 r s (any_kind f) (no_chk_ok ch) Hi Hrun) as H.
+  intros cnt ch f w0 r s Hf Haux Hinv Hrun Hst.
+  pose proof (check_sound _ _ _ _ _ chk_inv_pipeline cnt ch f w0 r s (no_timeout_kinds f Hf) (no_chk_ok ch) Haux Hinv Hrun) as H.
   apply invb_spec; assumption.
 Qed.
 
+Lemma crash_at_no_timeout e k : e <> KTimeout -> no_timeout (crash_at e k).
+Proof.
+  intros He i. unfold crash_at. destruct (Nat.eqb i k); split; intros H; try discriminate H.
+  inversion H. contradiction.
+Qed.
+
 Lemma never_ok_early_crash_at : forall cnt ch e k w0 r s,
-  invb w0 = true -> lost w0 = false ->
+  e <> KTimeout ->
+  aux_clear w0 = true -> invb w0 = true ->
   run_prog pipeline cnt ch (crash_at e k) w0 = (r, s) ->
   st (wd s) = SOk -> ex (wd s) = true /\ co (wd s) = true /\ so (wd s) = true /\ ix (wd s) = true.
-Proof. intros cnt ch e k. apply never_ok_early. Qed.
+Proof. intros cnt ch e k w0 r s He. apply never_ok_early. apply crash_at_no_timeout. exact He. Qed.
+
+(* 1'. every exception class, TimeoutError included (a worker swallows it on purpose and reports the
+       task): status Ok -> exists, sorted, indexed, nothing dropped without a report, and complete unless a
+       segment was reported *)
+Lemma chk_inv_rep_pipeline : check all_kinds no_chk pipeline invb P_inv_rep = true.
+Proof. vm_cast_no_check (eq_refl true). Qed.
+
+Lemma never_ok_early_timeouts : forall cnt ch f w0 r s,
+  aux_clear w0 = true -> invb w0 = true ->
+  run_prog pipeline cnt ch f w0 = (r, s) ->
+  st (wd s) = SOk ->
+  ex (wd s) = true /\ so (wd s) = true /\ ix (wd s) = true /\ lost (wd s) = false /\ (co (wd s) = true \/ rep (wd s) = true).
+Proof.
+  intros cnt ch f w0 r s Haux Hinv Hrun Hst.
+  pose proof (check_sound _ _ _ _ _ chk_inv_rep_pipeline cnt ch f w0 r s (any_kind f) (no_chk_ok ch) Haux Hinv Hrun) as H.
+  apply invb_rep_spec; assumption.
+Qed.
+
+(* a run in which records were dropped without a report (in particular: a worker failed, see
+   spawn_failure_lost / lost_sticky below) never says success *)
+Lemma lost_never_ok : forall cnt ch f w0 r s,
+  aux_clear w0 = true -> invb w0 = true ->
+  run_prog pipeline cnt ch f w0 = (r, s) ->
+  lost (wd s) = true -> st (wd s) <> SOk.
+Proof.
+  intros cnt ch f w0 r s Haux Hinv Hrun Hl Hst.
+  destruct (never_ok_early_timeouts cnt ch f w0 r s Haux Hinv Hrun Hst) as [_ [_ [_ [H _]]]].
+  rewrite H in Hl. discriminate Hl.
+Qed.
 
 (* 2. a run that returns normally (possibly after swallowed failures: sort retries, temp folder
       cleanup) ends with status Ok and all four *)
-Lemma chk_end_pipeline : check all_kinds no_chk pipeline fresh P_end = true.
+Lemma chk_end_pipeline : check worker_kinds no_chk pipeline any_w P_end = true.
 Proof. vm_cast_no_check (eq_refl true). Qed.
 
 Lemma ok_at_end : forall cnt ch f w0 s,
-  lost w0 = false ->
+  no_timeout f ->
+  aux_clear w0 = true ->
   run_prog pipeline cnt ch f w0 = (RNormal, s) ->
   st (wd s) = SOk /\ ex (wd s) = true /\ co (wd s) = true /\ so (wd s) = true /\ ix (wd s) = true.
 Proof.
-  intros cnt ch f w0 s Hl Hrun.
-  assert (Hi : fresh w0 = true) by (unfold fresh; rewrite Hl; reflexivity).
-  pose proof (check_sound _ _ _ _ _ chk_end_pipeline cnt ch f w0 RNormal s (any_kind f) (no_chk_ok ch) Hi Hrun) as H.
+  intros cnt ch f w0 s Hf Haux Hrun.
+  pose proof (check_sound _ _ _ _ _ chk_end_pipeline cnt ch f w0 RNormal s (no_timeout_kinds f Hf) (no_chk_ok ch) Haux eq_refl Hrun) as H.
   cbn [P_end] in H. unfold ok_and_four in H. apply andb_prop in H. destruct H as [H1 H2].
   apply status_eqb_eq in H1. split; [assumption | apply four_spec; assumption].
 Qed.
 
-(* 3. a run that raises never leaves status Ok (when it did not start from a stale Ok and no
+Lemma chk_end_rep_pipeline : check all_kinds no_chk pipeline any_w P_end_rep = true.
+Proof. vm_cast_no_check (eq_refl true). Qed.
+
+Lemma ok_at_end_timeouts : forall cnt ch f w0 s,
+  aux_clear w0 = true ->
+  run_prog pipeline cnt ch f w0 = (RNormal, s) ->
+  st (wd s) = SOk /\ ex (wd s) = true /\ so (wd s) = true /\ ix (wd s) = true /\ lost (wd s) = false /\
+  (co (wd s) = true \/ rep (wd s) = true).
+Proof.
+  intros cnt ch f w0 s Haux Hrun.
+  pose proof (check_sound _ _ _ _ _ chk_end_rep_pipeline cnt ch f w0 RNormal s (any_kind f) (no_chk_ok ch) Haux eq_refl Hrun) as H.
+  cbn [P_end_rep] in H. unfold ok_and_good in H. apply andb_prop in H. destruct H as [H1 H2].
+  apply status_eqb_eq in H1. split; [assumption | apply goodb_spec; assumption].
+Qed.
+
+(* 3. a run that does not return never leaves status Ok (when it did not start from a stale Ok and no
       blacklist temp files are cleaned up after the pipeline) *)
 Definition chk_tmp : nat -> option bool := fun id => if Nat.eqb id id_ch_tempfiles then Some false else None.
 
 Lemma chk_fail_pipeline : check all_kinds chk_tmp pipeline not_ok P_fail = true.
 Proof. vm_cast_no_check (eq_refl true). Qed.
 
+Lemma not_ok_of w : st w <> SOk -> not_ok w = true.
+Proof.
+  intros H. unfold not_ok. destruct (status_eqb (st w) SOk) eqn:E; [apply status_eqb_eq in E; contradiction | reflexivity].
+Qed.
+Lemma not_ok_spec w : not_ok w = true -> st w <> SOk.
+Proof. unfold not_ok. intros H E. rewrite E in H. discriminate H. Qed.
+
 Lemma fail_not_ok : forall cnt ch f w0 r s,
-  ch id_ch_tempfiles = false ->
-  st w0 <> SOk ->
+  (forall n, ch id_ch_tempfiles n = false) ->
+  aux_clear w0 = true -> st w0 <> SOk ->
   run_prog pipeline cnt ch f w0 = (r, s) ->
   r <> RNormal -> st (wd s) <> SOk.
 Proof.
-  intros cnt ch f w0 r s Hch Hst Hrun Hr.
-  assert (Hi : not_ok w0 = true).
-  { unfold not_ok. destruct (status_eqb (st w0) SOk) eqn:E; [apply status_eqb_eq in E; contradiction | reflexivity]. }
-  assert (Hc : forall id b, chk_tmp id = Some b -> ch id = b).
+  intros cnt ch f w0 r s Hch Haux Hst Hrun Hr.
+  assert (Hc : forall id b, chk_tmp id = Some b -> forall n, ch id n = b).
   { intros id b. unfold chk_tmp. destruct (Nat.eqb id id_ch_tempfiles) eqn:E; [|discriminate].
-    apply Nat.eqb_eq in E. subst id. intros H. inversion H. subst b. assumption. }
-  pose proof (check_sound _ _ _ _ _ chk_fail_pipeline cnt ch f w0 r s (any_kind f) Hc Hi Hrun) as H.
-  destruct r as [|k]; [contradiction Hr; reflexivity|].
-  cbn [P_fail] in H. unfold not_ok in H. intros E. rewrite E in H. discriminate H.
+    apply Nat.eqb_eq in E. subst id. intros H n. inversion H. subst b. apply Hch. }
+  pose proof (check_sound _ _ _ _ _ chk_fail_pipeline cnt ch f w0 r s (any_kind f) Hc Haux (not_ok_of _ Hst) Hrun) as H.
+  destruct r as [|k| | |v]; [contradiction Hr; reflexivity | apply not_ok_spec; exact H ..].
 Qed.
 
-(* 4. a worker (the with block of run_tagging_tasks) that returns normally has produced a complete,
-      sorted, indexed temporary BAM - for every exception class EXCEPT TimeoutError, which the worker
-      swallows on purpose (-max_time_per_segment: the region is skipped and blacklisted).  Justifies
-      counting one worker result as one unit.  A wider except clause in the worker (OSError,
-      Exception ...) refutes this obligation. *)
-Definition worker_kinds : list ekind := [KRuntime; KValue; KOS; KMemory; KOther; KBase].
-Definition no_timeout (f : nat -> fault) : Prop :=
-  forall i, f i <> FBefore KTimeout /\ f i <> FPartial KTimeout.
+(* 4. the worker (the whole of run_tagging_tasks, run_tagging_task inlined), started on a fresh temp path *)
+Definition P_worker (r : res) (w : world) : bool :=
+  match r with
+  | RReturn VPath => four w
+  | RReturn VNone => negb (lost w || gm w || gu w || rep w)
+  | RRaised _ => true
+  | _ => false       (* it never falls off its end *)
+  end.
+Definition P_worker_rep (r : res) (w : world) : bool :=
+  match r with
+  | RReturn VPath => goodb w
+  | RReturn VNone => negb (lost w || gm w || gu w)
+  | RRaised _ => true
+  | _ => false
+  end.
 
-Lemma no_timeout_kinds f : no_timeout f ->
-  forall i, match f i with FNone => True | FBefore k => In k worker_kinds | FPartial k => In k worker_kinds end.
-Proof.
-  intros H i. destruct (H i) as [H1 H2]. destruct (f i) as [|k|k].
-  - exact I.
-  - destruct k; cbn; try tauto; exfalso; apply H1; reflexivity.
-  - destruct k; cbn; try tauto; exfalso; apply H2; reflexivity.
-Qed.
-
-Lemma chk_worker : check worker_kinds no_chk worker_body fresh P_four = true.
+Lemma chk_worker : check_from worker_kinds no_chk worker_full [w_spawn0] P_worker = true.
+Proof. vm_cast_no_check (eq_refl true). Qed.
+Lemma chk_worker_rep : check_from all_kinds no_chk worker_full [w_spawn0] P_worker_rep = true.
 Proof. vm_cast_no_check (eq_refl true). Qed.
 
-Lemma worker_complete : forall cnt ch f w0 s,
+Lemma spawn0_in : wmem (wd (start w_spawn0)) [w_spawn0] = true.
+Proof. reflexivity. Qed.
+
+Lemma worker_path_complete : forall cnt ch f s,
   no_timeout f ->
-  lost w0 = false ->
-  run_prog worker_body cnt ch f w0 = (RNormal, s) ->
+  run_prog worker_full cnt ch f w_spawn0 = (RReturn VPath, s) ->
   ex (wd s) = true /\ co (wd s) = true /\ so (wd s) = true /\ ix (wd s) = true.
 Proof.
-  intros cnt ch f w0 s Hf Hl Hrun.
-  assert (Hi : fresh w0 = true) by (unfold fresh; rewrite Hl; reflexivity).
-  pose proof (check_sound _ _ _ _ _ chk_worker cnt ch f w0 RNormal s (no_timeout_kinds f Hf) (no_chk_ok ch) Hi Hrun) as H.
-  cbn [P_four] in H. apply four_spec. assumption.
+  intros cnt ch f s Hf Hrun.
+  pose proof (check_from_sound _ _ _ _ _ chk_worker cnt ch f _ _ s (no_timeout_kinds f Hf) (no_chk_ok ch) spawn0_in Hrun) as H.
+  cbn [P_worker] in H. apply four_spec. assumption.
 Qed.
 
-(* the by-design exception: a TimeoutError in a task is swallowed and the worker still returns *)
-Definition worker_timeout_loses_records (chs : list nat) : bool :=
-  existsb (fun k =>
-    let '(r, s) := run_prog worker_body (fun _ => 2) (fun id => existsb (Nat.eqb id) chs) (crash_at KTimeout k)
-                            (mkW SNone false false false false false) in
-    match r with RNormal => lost (wd s) && negb (co (wd s)) | _ => false end) (seq 0 60).
+Lemma worker_path_timeouts : forall cnt ch f s,
+  run_prog worker_full cnt ch f w_spawn0 = (RReturn VPath, s) ->
+  ex (wd s) = true /\ so (wd s) = true /\ ix (wd s) = true /\ lost (wd s) = false /\ (co (wd s) = true \/ rep (wd s) = true).
+Proof.
+  intros cnt ch f s Hrun.
+  pose proof (check_from_sound _ _ _ _ _ chk_worker_rep cnt ch f _ _ s (any_kind f) (no_chk_ok ch) spawn0_in Hrun) as H.
+  cbn [P_worker_rep] in H. apply goodb_spec. assumption.
+Qed.
+
+Lemma worker_none_drops_nothing : forall cnt ch f s,
+  run_prog worker_full cnt ch f w_spawn0 = (RReturn VNone, s) ->
+  lost (wd s) = false /\ gm (wd s) = false /\ gu (wd s) = false.
+Proof.
+  intros cnt ch f s Hrun.
+  pose proof (check_from_sound _ _ _ _ _ chk_worker_rep cnt ch f _ _ s (any_kind f) (no_chk_ok ch) spawn0_in Hrun) as H.
+  cbn [P_worker_rep] in H. apply negb_true_iff in H.
+  apply orb_false_elim in H. destruct H as [H H3]. apply orb_false_elim in H. destruct H as [H1 H2]. auto.
+Qed.
+
+Lemma worker_none_wrote_nothing : forall cnt ch f s,
+  no_timeout f ->
+  run_prog worker_full cnt ch f w_spawn0 = (RReturn VNone, s) ->
+  rep (wd s) = false /\ lost (wd s) = false /\ gm (wd s) = false /\ gu (wd s) = false.
+Proof.
+  intros cnt ch f s Hf Hrun.
+  pose proof (check_from_sound _ _ _ _ _ chk_worker cnt ch f _ _ s (no_timeout_kinds f Hf) (no_chk_ok ch) spawn0_in Hrun) as H.
+  cbn [P_worker] in H. apply negb_true_iff in H.
+  apply orb_false_elim in H. destruct H as [H H4]. apply orb_false_elim in H. destruct H as [H H3].
+  apply orb_false_elim in H. destruct H as [H1 H2]. auto.
+Qed.
+
+Lemma worker_returns_or_raises : forall cnt ch f r s,
+  run_prog worker_full cnt ch f w_spawn0 = (r, s) ->
+  (exists v, r = RReturn v) \/ (exists k, r = RRaised k).
+Proof.
+  intros cnt ch f r s Hrun.
+  pose proof (check_from_sound _ _ _ _ _ chk_worker_rep cnt ch f _ _ s (any_kind f) (no_chk_ok ch) spawn0_in Hrun) as H.
+  destruct r as [|k| | |v]; cbn [P_worker_rep] in H; try discriminate H; [right | left]; eexists; reflexivity.
+Qed.
+
+(* 5. what a failing worker does to its caller, for every worker program: the caller's world is marked,
+      and the mark stays for the rest of every run *)
+Lemma spawn_failure_lost : forall cnt ch f l p s k s',
+  exec cnt ch f (Spawn l p) s = (RRaised k, s') -> lost (wd s') = true.
+Proof.
+  intros cnt ch f l p s k s' H. cbn [exec] in H.
+  destruct (exec cnt ch f p _) as [r s1]. destruct r as [|k1| | |v]; inversion H; reflexivity.
+Qed.
+
+Lemma lost_apply e w : lost w = true -> lost (apply e w) = true.
+Proof. intros H. destruct e; cbn; rewrite ?H; reflexivity. Qed.
+Lemma lost_partial e w : lost w = true -> lost (partial e w) = true.
+Proof. intros H. destruct e; cbn; rewrite ?H; reflexivity. Qed.
+Lemma lost_mark b rp w : lost w = true -> lost (mark_w b rp w) = true.
+Proof. intros H. unfold mark_w. destruct b, rp; cbn; rewrite ?H; reflexivity. Qed.
+Lemma lost_commit rp w : lost w = true -> lost (commit_w rp w) = true.
+Proof. intros H. unfold commit_w. destruct rp; cbn; rewrite ?H; reflexivity. Qed.
+Lemma lost_join v ww pw : lost pw = true -> lost (join v ww pw) = true.
+Proof. intros H. destruct v; cbn; rewrite H; reflexivity. Qed.
+
+Lemma lost_step f l e s r s' : step f l e s = (r, s') -> lost (wd s) = true -> lost (wd s') = true.
+Proof.
+  unfold step. destruct (f (cn s)) as [|k|k]; intros H Hl; inversion H; subst; cbn [wd];
+    [apply lost_apply | | apply lost_partial]; exact Hl.
+Qed.
+
+Lemma lost_iter (one : cfg -> res * cfg) :
+  (forall s r s', one s = (r, s') -> lost (wd s) = true -> lost (wd s') = true) ->
+  forall n s r s', iter n one s = (r, s') -> lost (wd s) = true -> lost (wd s') = true.
+Proof.
+  intros Hone. induction n as [|n IH]; intros s r s' H Hl; cbn [iter] in H.
+  - inversion H; subst. exact Hl.
+  - destruct (one s) as [r0 s0] eqn:H0. pose proof (Hone _ _ _ H0 Hl) as Hl0.
+    destruct r0; try (inversion H; subst; exact Hl0). exact (IH _ _ _ H Hl0).
+Qed.
+
+Lemma lost_sticky : forall cnt ch f p s r s',
+  exec cnt ch f p s = (r, s') -> lost (wd s) = true -> lost (wd s') = true.
+Proof.
+  intros cnt ch f.
+  induction p as [|l e|l k|a IHa b IHb|id l h body IHbody|body IHbody h IHh reraise hs|id a IHa b IHb
+                  | | |v|g a IHa b IHb|l p IHp]; intros s r s' H Hl; cbn [exec] in H.
+  - inversion H; subst. exact Hl.
+  - exact (lost_step _ _ _ _ _ _ H Hl).
+  - inversion H; subst. exact Hl.
+  - destruct (exec cnt ch f a s) as [r1 s1] eqn:Ha. pose proof (IHa _ _ _ Ha Hl) as Hl1.
+    destruct r1; try (inversion H; subst; exact Hl1). exact (IHb _ _ _ H Hl1).
+  - match type of H with context [iter ?n ?o ?s0] => destruct (iter n o s0) as [ri si] eqn:Hit end.
+    assert (Hsi : lost (wd si) = true).
+    { refine (lost_iter _ _ _ _ _ _ Hit Hl). intros s0 r0 s0' H0 Hl0.
+      destruct (step f l h s0) as [r1 s1] eqn:Hs. pose proof (lost_step _ _ _ _ _ _ Hs Hl0) as Hl1.
+      destruct r1; try (inversion H0; subst; exact Hl1).
+      destruct (exec cnt ch f body s1) as [rb sb] eqn:Hb. inversion H0; subst. exact (IHbody _ _ _ Hb Hl1). }
+    destruct ri; try (inversion H; subst; exact Hsi). exact (lost_step _ _ _ _ _ _ H Hsi).
+  - destruct (exec cnt ch f body (commit (reports h) s)) as [r1 s1] eqn:Hb.
+    assert (Hl1 : lost (wd s1) = true) by (apply (IHbody _ _ _ Hb); apply lost_commit; exact Hl).
+    destruct r1 as [|k| | |v]; try (inversion H; subst; apply lost_commit; exact Hl1).
+    destruct (catches hs k); [|inversion H; subst; exact Hl1].
+    destruct (exec cnt ch f h _) as [r2 s2] eqn:Hh.
+    assert (Hl2 : lost (wd s2) = true) by (apply (IHh _ _ _ Hh); apply lost_mark; exact Hl1).
+    destruct r2; inversion H; subst; exact Hl2.
+  - destruct (ch id (cn s)); [exact (IHa _ _ _ H Hl) | exact (IHb _ _ _ H Hl)].
+  - inversion H; subst. exact Hl.
+  - inversion H; subst. exact Hl.
+  - inversion H; subst. exact Hl.
+  - destruct (guard_holds g (wd s)); [exact (IHa _ _ _ H Hl) | exact (IHb _ _ _ H Hl)].
+  - destruct (exec cnt ch f p _) as [r1 s1]. destruct r1 as [|k| | |v]; inversion H; subst; cbn [wd];
+      try reflexivity. apply lost_join. exact Hl.
+Qed.
+
+(* 6. --cluster (with no -contig): jobs are submitted, the process ends by exit(); the status file never
+      says success and the run never returns *)
+Definition chk_cluster : nat -> option bool := fun id =>
+  if Nat.eqb id id_ch_cluster then Some true else if Nat.eqb id id_ch_cluster_contig_none then Some true else None.
+Definition P_cluster (r : res) (w : world) : bool := match r with RNormal => false | _ => not_ok w end.
+
+Lemma chk_cluster_pipeline : check all_kinds chk_cluster pipeline not_ok P_cluster = true.
+Proof. vm_cast_no_check (eq_refl true). Qed.
+
+Lemma cluster_never_ok : forall cnt ch f w0 r s,
+  (forall n, ch id_ch_cluster n = true) -> (forall n, ch id_ch_cluster_contig_none n = true) ->
+  aux_clear w0 = true -> st w0 <> SOk ->
+  run_prog pipeline cnt ch f w0 = (r, s) ->
+  r <> RNormal /\ st (wd s) <> SOk.
+Proof.
+  intros cnt ch f w0 r s H1 H2 Haux Hst Hrun.
+  assert (Hc : forall id b, chk_cluster id = Some b -> forall n, ch id n = b).
+  { intros id b. unfold chk_cluster. destruct (Nat.eqb id id_ch_cluster) eqn:E1.
+    - apply Nat.eqb_eq in E1. subst id. intros H n. inversion H. apply H1.
+    - destruct (Nat.eqb id id_ch_cluster_contig_none) eqn:E2; [|discriminate].
+      apply Nat.eqb_eq in E2. subst id. intros H n. inversion H. apply H2. }
+  pose proof (check_sound _ _ _ _ _ chk_cluster_pipeline cnt ch f w0 r s (any_kind f) Hc Haux (not_ok_of _ Hst) Hrun) as H.
+  destruct r as [|k| | |v]; cbn [P_cluster] in H; [discriminate H | split; [discriminate | apply not_ok_spec; exact H] ..].
+Qed.
 
 (* helpers for the examples *)
-Definition ch_of (l : list nat) : nat -> bool := fun id => existsb (Nat.eqb id) l.
-Definition w_fresh : world := mkW SNone false false false false false.
-Definition w_prev_ok : world := mkW SOk true true true true false.
+Definition ch_of (l : list nat) : nat -> nat -> bool := fun id _ => existsb (Nat.eqb id) l.
+Definition w_fresh : world := mkW SNone false false false false false false false false false false false.
+Definition w_prev_ok : world := mkW SOk true true true true false false false false false false false.
+Definition cnt3 : nat -> nat -> nat := fun _ _ => 3.
+
+(* the by-design exception to "every record": a TimeoutError in a task (-max_time_per_segment, or an I/O
+   timeout) is swallowed by the worker, the task is reported, the run ends with status Ok and an output
+   that lacks records: [k] = index of the failing step *)
+Definition timeout_run (chs : list nat) (k : nat) :=
+  run_prog pipeline cnt3 (ch_of chs) (crash_at KTimeout k) w_fresh.
+Definition timeout_incomplete_ok (chs : list nat) (k : nat) : bool :=
+  let '(r, s) := timeout_run chs k in
+  match r with RNormal => status_eqb (st (wd s)) SOk && negb (co (wd s)) && rep (wd s) && negb (lost (wd s)) | _ => false end.
+Definition first_true (p : nat -> bool) (n : nat) : option nat := find p (seq 0 n).
+
+(* a worker in which a task times out after writing part of its molecules (the failing step is the next()
+   of the molecule loop and the step before it counted a written molecule) while another task completed: the
+   returned temp BAM holds the half-written segment, and the segment is reported *)
+Definition worker_timeout_run (chs : list nat) (k : nat) :=
+  run_prog worker_full cnt3 (ch_of chs) (crash_at KTimeout k) w_spawn0.
+Definition worker_half_written_reported (chs : list nat) (k : nat) : bool :=
+  let '(r, s) := worker_timeout_run chs k in
+  let t := rev (tr s) in
+  match r with
+  | RReturn VPath => Nat.eqb (nth k t 0) lbl_task_next && Nat.eqb (nth (k - 1) t 0) lbl_task_inc && Nat.ltb 0 k
+                     && negb (co (wd s)) && rep (wd s) && gm (wd s) && negb (lost (wd s)) && ex (wd s) && so (wd s) && ix (wd s)
+  | _ => false
+  end.
+(* ... and when it was the only task: the temp BAM (holding the half-written segment) is removed, None is
+   returned, the segment is reported *)
+Definition cnt_one_task : nat -> nat -> nat := fun id _ => if Nat.eqb id id_loop_tasks then 1 else 3.
+Definition worker_timeout_none (chs : list nat) (k : nat) : bool :=
+  let '(r, s) := run_prog worker_full cnt_one_task (ch_of chs) (crash_at KTimeout k) w_spawn0 in
+  let t := rev (tr s) in
+  match r with
+  | RReturn VNone => Nat.eqb (nth k t 0) lbl_task_next && Nat.eqb (nth (k - 1) t 0) lbl_task_inc && Nat.ltb 0 k
+                     && rep (wd s) && negb (ex (wd s)) && negb (lost (wd s))
+  | _ => false
+  end.
+
+Lemma first_true_spec p n k : first_true p n = Some k -> p k = true.
+Proof. unfold first_true. intros H. apply find_some in H. apply H. Qed.
+
+Lemma every_record_refuted : exists k s,
+  run_prog pipeline cnt3 (ch_of ch_true_multi) (crash_at KTimeout k) w_fresh = (RNormal, s) /\
+  st (wd s) = SOk /\ co (wd s) = false /\ rep (wd s) = true /\ lost (wd s) = false.
+Proof.
+  destruct (first_true (timeout_incomplete_ok ch_true_multi) 4000) as [k|] eqn:E; [|vm_compute in E; discriminate E].
+  apply first_true_spec in E. unfold timeout_incomplete_ok, timeout_run in E.
+  destruct (run_prog pipeline cnt3 (ch_of ch_true_multi) (crash_at KTimeout k) w_fresh) as [r s] eqn:Hr.
+  exists k, s. destruct r; try discriminate E.
+  repeat (apply andb_prop in E; destruct E as [E ?]).
+  apply status_eqb_eq in E. repeat match goal with H : negb _ = true |- _ => apply negb_true_iff in H end. auto.
+Qed.
+
+Lemma timeout_half_written_reported : exists k s,
+  run_prog worker_full cnt3 (ch_of ch_true_multi) (crash_at KTimeout k) w_spawn0 = (RReturn VPath, s) /\
+  nth k (rev (tr s)) 0 = lbl_task_next /\ nth (k - 1) (rev (tr s)) 0 = lbl_task_inc /\
+  ex (wd s) = true /\ co (wd s) = false /\ rep (wd s) = true /\ gm (wd s) = true /\ lost (wd s) = false.
+Proof.
+  destruct (first_true (worker_half_written_reported ch_true_multi) 2000) as [k|] eqn:E; [|vm_compute in E; discriminate E].
+  apply first_true_spec in E. unfold worker_half_written_reported, worker_timeout_run in E.
+  destruct (run_prog worker_full cnt3 (ch_of ch_true_multi) (crash_at KTimeout k) w_spawn0) as [r s] eqn:Hr.
+  exists k, s. destruct r as [|k0| | |v]; try discriminate E. destruct v; try discriminate E.
+  repeat (apply andb_prop in E; destruct E as [E ?]).
+  repeat match goal with H : negb _ = true |- _ => apply negb_true_iff in H end.
+  repeat match goal with H : Nat.eqb _ _ = true |- _ => apply Nat.eqb_eq in H end. auto 10.
+Qed.
+
+Lemma timeout_only_segment_removed : exists k s,
+  run_prog worker_full (fun id _ => if Nat.eqb id id_loop_tasks then 1 else 3) (ch_of ch_true_multi) (crash_at KTimeout k) w_spawn0
+    = (RReturn VNone, s) /\
+  nth k (rev (tr s)) 0 = lbl_task_next /\ nth (k - 1) (rev (tr s)) 0 = lbl_task_inc /\
+  rep (wd s) = true /\ ex (wd s) = false /\ lost (wd s) = false.
+Proof.
+  destruct (first_true (worker_timeout_none ch_true_multi) 2000) as [k|] eqn:E; [|vm_compute in E; discriminate E].
+  apply first_true_spec in E. unfold worker_timeout_none in E.
+  destruct (run_prog worker_full _ (ch_of ch_true_multi) (crash_at KTimeout k) w_spawn0) as [r s] eqn:Hr.
+  exists k, s. destruct r as [|k0| | |v]; try discriminate E. destruct v; try discriminate E.
+  repeat (apply andb_prop in E; destruct E as [E ?]).
+  repeat match goal with H : negb _ = true |- _ => apply negb_true_iff in H end.
+  repeat match goal with H : Nat.eqb _ _ = true |- _ => apply Nat.eqb_eq in H end. auto 10.
+Qed.
